@@ -160,9 +160,12 @@ PROPS = {
                       "every kind); UNBOUNDED for the free-form positions (Codec/PayloadFacts.v: default, example, enum entries, extension values, unknown keywords): "
                       "for every JSON value, duplicates and any nesting included, the encoding of a payload is a fixed point (norm_any is idempotent, its result "
                       "strictly sorted at every level) and the vendor extensions of an encoded object are read back as written (ext_members idempotent); "
+                      "UNBOUNDED for the union kinds and the container field types (Codec/TypedFacts.v): StringOrArray (`type`) for every JSON value, SchemaOrBool and "
+                      "SchemaOrStringArray for every value that is not an object, and every field whose Go type is built from string/bool/float64/int64/interface{}/"
+                      "StringOrArray by slices and string-keyed maps (89 of the 201 encoded fields of the regenerated tables) are normalised idempotently; "
                       "fixed-point examples by evaluation; the known non-fixed point (F4b) as a refutation witness. The full idempotence "
                       "statement C07_statement for the typed kinds is not proved generically; it is checked by the oracle on the implementation (all kinds x all documents).",
-        "level_note": "Partial: idempotence is proved for free-form payloads and extensions; for the typed kinds it rests on the oracle and the differential run; panics/stack exhaustion are runtime behaviour the model cannot exhibit (oracle runs with a watchdog).",
+        "level_note": "Partial: idempotence is proved for free-form payloads, extensions, the union kinds and the scalar/slice/map field types; for the struct kinds as wholes (Schema, Parameter, Operation, ...: omitempty, parts, F4b) it rests on the oracle and the differential run; panics/stack exhaustion are runtime behaviour the model cannot exhibit (oracle runs with a watchdog).",
         "technique": "Coq totality by structural recursion + evaluation witnesses + differential run + oracle",
         "assumptions": ["member names that case-fold onto a keyword are only checked for totality (the property's exception)"],
     },
